@@ -35,7 +35,8 @@ ASSUMPTIONS = ["data compared exactly as float32(saved data)", "frames have >= 3
 PROBES = ["derived_of_loaded_frame_saved", "derived_after_get_waterfall_saved", "loaded_resaved", "copy_saved", "pickled_saved",
           "format_fil", "format_h5", "descending", "ascending", "clock_jump", "refsigproc_input", "helpers_checked", "sliced_saved",
           "dedrifted_saved", "sibling_frames_alive", "retimed_after_history", "data_rebound_after_waterfall", "saved_over_existing_file",
-          "save_failed_then_frame_used_again", "frame_from_time_selected_waterfall"]
+          "save_failed_then_frame_used_again", "frame_from_time_selected_waterfall",
+          "helpers_given_waterfall_object"]
 
 
 def generate(rng, tier):
@@ -207,12 +208,31 @@ def judge_roundtrip(ctx, saved, path, fmt, hist, load_form="str"):
         ctx.check(okw, "get_waterfall", "C03/get_waterfall/" + cls, lambda: "nchans %r shape %s" % (h["nchans"], d2.shape))
     except (Exception, SystemExit) as e:
         ctx.violation("get_waterfall", "C03/get_waterfall/raises:%s/%s" % (type(e).__name__, cls), repr(e))
-    # stand-alone helpers
+    # stand-alone helpers: given the file's name, or a Waterfall object of it (which stays the caller's, unchanged)
+    harg = path
+    dig0 = F.state_digest(saved)
     try:
-        hfs = np.asarray(stg.get_fs(path))
-        hts = np.asarray(stg.get_ts(path))
-        hmin, hmax = stg.min_freq(path), stg.max_freq(path)
-        hdata = np.asarray(stg.get_data(path))
+        if load_form in ("object", "from_waterfall"):
+            harg = Waterfall(path)
+            ctx.hit("helpers_given_waterfall_object")
+            wdata0 = np.array(harg.data, copy=True)
+            with np.errstate(all="ignore"):
+                hdb = np.asarray(stg.get_data(harg, db=True))
+                want_db = 10 * np.log10(wdata0[:, 0, :].astype(np.float64))
+            ctx.check(hdb.shape == want_db.shape and np.allclose(hdb, want_db, rtol=1e-6, atol=1e-6, equal_nan=True), "helpers",
+                      "C03/helpers/get_data_db", "")
+            ctx.check(np.array_equal(np.asarray(harg.data), wdata0, equal_nan=True), "helpers", "C03/helpers/waterfall_argument_modified",
+                      "get_data(db=True) changed the Waterfall object it was given")
+            # ... and the frame's own in-session Waterfall likewise
+            wses = saved.get_waterfall()
+            with np.errstate(all="ignore"):
+                stg.get_data(wses, db=True)
+            ctx.check(F.state_digest(saved) == dig0, "helpers", "C03/helpers/frame_modified_through_its_waterfall",
+                      "a helper given frame.get_waterfall() changed the frame")
+        hfs = np.asarray(stg.get_fs(harg))
+        hts = np.asarray(stg.get_ts(harg))
+        hmin, hmax = stg.min_freq(harg), stg.max_freq(harg)
+        hdata = np.asarray(stg.get_data(harg))
     except (Exception, SystemExit) as e:
         ctx.violation("helpers", "C03/helpers/raises:%s/%s" % (type(e).__name__, cls), repr(e))
         return loaded
